@@ -73,32 +73,45 @@ def setType (t : Nat) : V → R V
   | _ => .panic
 end ActionHeader
 
-/-! ActionMplsTtl and ActionNwTtl define no methods of their own: Len/MarshalBinary/UnmarshalBinary are the promoted
-    methods of the embedded ActionHeader (4 bytes; the ttl is neither written nor read). -/
+/-! ActionMplsTtl and ActionNwTtl: header (4) + ttl (1) + 3 bytes of padding -/
 namespace ActionMplsTtl
 def zero : V := .obj "ActionMplsTtl" [ActionHeader.zero, .num 0, .bytes []]
-def lenM (v : V) : R (UInt16 × V) := same 4 v
+def lenM (v : V) : R (UInt16 × V) := same 8 v
 def marshalM : V → R (Bytes × V)
-  | .obj "ActionMplsTtl" [h, t, p] => do let b ← ActionHeader.bytes h; same b (.obj "ActionMplsTtl" [h, t, p])
+  | .obj "ActionMplsTtl" [h, .num t, p] => do
+    let hb ← ActionHeader.bytes h
+    same (hb ++ [n8 t, 0, 0, 0]) (.obj "ActionMplsTtl" [h, .num t, p])
   | _ => .panic
 def unmarshal : V → Slice → R V
-  | .obj "ActionMplsTtl" [h, t, p], data => do
-    let h' ← ActionHeader.unmarshal h data
-    pure (.obj "ActionMplsTtl" [h', t, p])
+  | .obj "ActionMplsTtl" [h, _, p], data =>
+    if data.len < 8 then .err else do
+      let d4 ← data.uptoR 4
+      let h' ← ActionHeader.unmarshal h d4
+      let t ← data.byteAt 4
+      pure (.obj "ActionMplsTtl" [h', V.u8 t, p])
   | _, _ => .panic
+/-- NewActionMplsTtl(ttl) -/
+def new (t : Nat) : V := .obj "ActionMplsTtl" [ActionHeader.mk Gen.openflow13.ActionType_SetMplsTtl 8, V.u8 (n8 t), .bytes []]
 end ActionMplsTtl
 
 namespace ActionNwTtl
 def zero : V := .obj "ActionNwTtl" [ActionHeader.zero, .num 0, .bytes []]
-def lenM (v : V) : R (UInt16 × V) := same 4 v
+def lenM (v : V) : R (UInt16 × V) := same 8 v
 def marshalM : V → R (Bytes × V)
-  | .obj "ActionNwTtl" [h, t, p] => do let b ← ActionHeader.bytes h; same b (.obj "ActionNwTtl" [h, t, p])
+  | .obj "ActionNwTtl" [h, .num t, p] => do
+    let hb ← ActionHeader.bytes h
+    same (hb ++ [n8 t, 0, 0, 0]) (.obj "ActionNwTtl" [h, .num t, p])
   | _ => .panic
 def unmarshal : V → Slice → R V
-  | .obj "ActionNwTtl" [h, t, p], data => do
-    let h' ← ActionHeader.unmarshal h data
-    pure (.obj "ActionNwTtl" [h', t, p])
+  | .obj "ActionNwTtl" [h, _, p], data =>
+    if data.len < 8 then .err else do
+      let d4 ← data.uptoR 4
+      let h' ← ActionHeader.unmarshal h d4
+      let t ← data.byteAt 4
+      pure (.obj "ActionNwTtl" [h', V.u8 t, p])
   | _, _ => .panic
+/-- NewActionNwTtl(ttl) -/
+def new (t : Nat) : V := .obj "ActionNwTtl" [ActionHeader.mk Gen.openflow13.ActionType_SetNwTtl 8, V.u8 (n8 t), .bytes []]
 end ActionNwTtl
 
 namespace ActionOutput
@@ -1021,8 +1034,9 @@ def marshalLeaf (v : V) : R (Bytes × V) :=
   | _ => .panic
 
 /-- Action.MarshalBinary() with an explicit bound on the nesting of conntrack actions. Depth 0 is unreachable for
-    values nested less deeply than the starting depth (generators keep the nesting below `encDepth`). -/
-def encDepth : Nat := 8
+    values nested less deeply than the starting depth; `encDepth` exceeds the nesting any 64 KiB frame can hold (each
+    conntrack level occupies at least 24 bytes), and the generators keep API-built values far below it. -/
+def encDepth : Nat := 4096
 
 /-- Action.Len() with an explicit bound on the nesting of conntrack actions -/
 def lenD : Nat → V → R (UInt16 × V)
@@ -1106,10 +1120,10 @@ def DecodeNxAction (data : Slice) : R V := do
 /-- type ↦ new(T) of DecodeAction for the non-experimenter types -/
 def actionTypeTable : List (Nat × V) := [
   (Gen.openflow13.ActionType_Output, ActionOutput.zero),
-  (Gen.openflow13.ActionType_CopyTtlOut, ActionHeader.zero),
-  (Gen.openflow13.ActionType_CopyTtlIn, ActionHeader.zero),
+  (Gen.openflow13.ActionType_CopyTtlOut, ActionDecNwTtl.zero),
+  (Gen.openflow13.ActionType_CopyTtlIn, ActionDecNwTtl.zero),
   (Gen.openflow13.ActionType_SetMplsTtl, ActionMplsTtl.zero),
-  (Gen.openflow13.ActionType_DecMplsTtl, ActionHeader.zero),
+  (Gen.openflow13.ActionType_DecMplsTtl, ActionDecNwTtl.zero),
   (Gen.openflow13.ActionType_PushVlan, ActionPush.zero),
   (Gen.openflow13.ActionType_PopVlan, ActionPopVlan.zero),
   (Gen.openflow13.ActionType_PushMpls, ActionPush.zero),
@@ -1120,7 +1134,7 @@ def actionTypeTable : List (Nat × V) := [
   (Gen.openflow13.ActionType_DecNwTtl, ActionDecNwTtl.zero),
   (Gen.openflow13.ActionType_SetField, ActionSetField.zero),
   (Gen.openflow13.ActionType_PushPbb, ActionPush.zero),
-  (Gen.openflow13.ActionType_PopPbb, ActionHeader.zero)
+  (Gen.openflow13.ActionType_PopPbb, ActionDecNwTtl.zero)
 ]
 
 /-- the `switch t` of DecodeAction: the receiver `a` (nil for unknown types, foreign vendors, unknown subtypes) -/
@@ -1237,6 +1251,8 @@ def funcsAction : FuncTab := [
   ("NewActionSetQueue", mkF fun | [.num q] => ret1 (ActionSetqueue.new q) | _ => .panic),
   ("NewActionGroup", mkF fun | [.num g] => ret1 (ActionGroup.new g) | _ => .panic),
   ("NewActionDecNwTtl", mkF fun | [] => ret1 ActionDecNwTtl.new | _ => .panic),
+  ("NewActionMplsTtl", mkF fun | [.num t] => ret1 (ActionMplsTtl.new t) | _ => .panic),
+  ("NewActionNwTtl", mkF fun | [.num t] => ret1 (ActionNwTtl.new t) | _ => .panic),
   ("NewActionPushVlan", mkF fun | [.num et] => ret1 (ActionPush.new Gen.openflow13.ActionType_PushVlan et) | _ => .panic),
   ("NewActionPushMpls", mkF fun | [.num et] => ret1 (ActionPush.new Gen.openflow13.ActionType_PushMpls et) | _ => .panic),
   ("NewActionPopVlan", mkF fun | [] => ret1 ActionPopVlan.new | _ => .panic),
